@@ -900,11 +900,11 @@ func (p *Path) holds(c string) bool {
 // closureBindings describes, in the enclosing function, the values captured
 // by the function literal lit (index = free variable number).
 func closureBindings(lit *ssa.Function) []string {
-	if mc, ok := boundSite[lit]; ok {
-		if cb := carrierBindings(mc); cb != nil {
+	if recv, ok := boundSite[lit]; ok {
+		if cb := carrierBindings(recv); cb != nil {
 			return cb // a carrier struct: its fields are what a literal would have captured
 		}
-		return []string{describe(mc.Bindings[0])} // the receiver of a method value is what a literal would have captured
+		return []string{describe(recv)} // the receiver of a method value is what a literal would have captured
 	}
 	parent := lit.Parent()
 	if parent == nil {
@@ -926,8 +926,8 @@ func closureBindings(lit *ssa.Function) []string {
 
 // bindingValues returns the captured values themselves.
 func bindingValues(lit *ssa.Function) []ssa.Value {
-	if mc, ok := boundSite[lit]; ok {
-		return mc.Bindings
+	if recv, ok := boundSite[lit]; ok {
+		return []ssa.Value{recv}
 	}
 	parent := lit.Parent()
 	if parent == nil {
